@@ -147,7 +147,8 @@ package crlrepository
 //@   ensures chains_untouched: old(chains != nil && chainsOK(chains)) ==> chainsOK(chains)
 
 //@ func Repository.loadActively
-//@   props C10 C13 C16
+//@   props C10 C13 C15 C16
+//@   ensures[C15] locations_recorded_before_the_first_load: called(Repository.loadCRL#any) ==> called(CRLStore.UpdateCRLLocations#1) && res(CRLStore.UpdateCRLLocations#1) == nil
 //@   requires repoOK(R) && entryShell(entry) && unheld(entry.entryLock) && chains != nil && chainsOK(chains) && crlLocations != nil
 //@   assigns L.held, crlrepository.Entry.CRLStore, crlrepository.Entry.Loaded, crlrepository.Entry.LastUpdateSignatureVerifyFailed, crlrepository.Entry.LastUpdateSignature, crlrepository.Entry.Chains, M.map[string][]uint8, X.ldbhas, X.fs, X.net, X.retry, X.stream, X.spos, X.hacc, X.hkind, E.uint8, E.any, fresh:E.*core.CertificateChainEntry, H.crlloader.MultiSchemesCRLLoader, H.crlloader.URLLoader, H.crlloader.FileLoader
 //@   ensures sameLocks()
@@ -159,7 +160,7 @@ package crlrepository
 //@   requires newChains != nil ==> chainsOK(newChains)
 //@   assigns L.held, crlrepository.Entry.CRLStore, crlrepository.Entry.Loaded, crlrepository.Entry.LastUpdateSignatureVerifyFailed, crlrepository.Entry.LastUpdateSignature, crlrepository.Entry.Chains, H.crlrepository.Repository.crlRepository, M.map[string]*crlrepository.Entry, crlstore.MapStore.Map, M.map[string][]uint8, crlstore.LevelDbStore.Db, H.crlloader.MultiSchemesCRLLoader, H.crlloader.URLLoader, H.crlloader.FileLoader, X.ldbhas, X.fs, X.net, X.retry, X.stream, X.spos, X.hacc, X.hkind, E.uint8, E.any, E.string, fresh:E.*core.CertificateChainEntry, fresh:E.core.CertificateChain, fresh:E.core.CertificateChainEntry
 //@   ensures[C16] refresh_follows_policy: called(CRLReader.ReadCRL#1) && res(CRLReader.ReadCRL#1, 1) == nil && sigMode(R) != config.SignatureValidationModeVerify && called(verifyCRLSignature#1) && res(verifyCRLSignature#1, 1) != nil ==> err == nil
-//@   ensures[C04,C08,C16] no_swap_without_verification: called(Repository.updateEntry#1) ==> called(verifyCRLSignature#1) && res(verifyCRLSignature#1, 1) == nil
+//@   ensures[C04,C08,C16] no_swap_without_verification: called(Repository.updateEntry#any) ==> called(verifyCRLSignature#1) && res(verifyCRLSignature#1, 1) == nil
 //@   ensures[C08,C15] failed_refresh_keeps_entry: err != nil ==> !called(Repository.deleteEntrySync#1)
 //@   ensures chains_untouched: old(newChains != nil && chainsOK(newChains)) ==> chainsOK(newChains)
 
@@ -207,7 +208,7 @@ package crlrepository
 //@   ensures[C09] store_error_is_error: called(CRLStore.GetCertRevocationStatus#1) && res(CRLStore.GetCertRevocationStatus#1, 1) != nil ==> err != nil
 //@   ensures[C01] listed_means_revoked: called(CRLStore.GetCertRevocationStatus#1) && res(CRLStore.GetCertRevocationStatus#1, 1) == nil && res(CRLStore.GetCertRevocationStatus#1, 0).Revoked ==> err == nil && ret.Revoked
 //@   ensures[C04,C11,C16] revoked_only_while_in_force: err == nil && ret.Revoked ==> called(Repository.getEntrySync#1) && res(Repository.getEntrySync#1) != nil && res(Repository.getEntrySync#1).Loaded
-//@   ensures[C04,C11,C16] unloaded_entry_store_is_not_consulted: called(CRLStore.GetCertRevocationStatus#1) ==> res(Repository.getEntrySync#1) != nil && res(Repository.getEntrySync#1).Loaded
+//@   ensures[C04,C11,C16] unloaded_entry_store_is_not_consulted: called(CRLStore.GetCertRevocationStatus#any) ==> res(Repository.getEntrySync#1) != nil && res(Repository.getEntrySync#1).Loaded
 //@   ensures[C11] revoked_only_from_loaded_store: err == nil && ret.Revoked ==> called(CRLStore.GetCertRevocationStatus#1) && res(CRLStore.GetCertRevocationStatus#1, 1) == nil && res(CRLStore.GetCertRevocationStatus#1, 0).Revoked
 //@   ensures[C01,C09] loaded_entry_is_consulted: called(Repository.getEntrySync#1) && res(Repository.getEntrySync#1) != nil && called(RWMutex.RLock#1) && res(Repository.getEntrySync#1).Loaded ==> called(CRLStore.GetCertRevocationStatus#1)
 
